@@ -24,13 +24,14 @@ BO = s.BuiltinOperator
 
 
 class Case:
-    def __init__(self, mb, info, cmds=None, recipe=None, data=None, desc=None):
+    def __init__(self, mb, info, cmds=None, recipe=None, data=None, desc=None, late=None):
         self.mb, self.info, self.cmds, self.recipe, self.data = mb, info, cmds, recipe, data
         self.desc = desc
+        self.late = late   # commands issued AFTER calibration and before the final quantize(): history on the same object
 
     def replay(self):
         import base64
-        return {"model_b64": base64.b64encode(self.mb).decode(), "cmds": self.cmds, "recipe": self.recipe,
+        return {"model_b64": base64.b64encode(self.mb).decode(), "cmds": self.cmds, "recipe": self.recipe, "late": self.late,
                 "data": {k: [{a: v.tolist() for a, v in smp.items()} for smp in v_] for k, v_ in (self.data or {}).items()},
                 "ops": [sg["ops"] for sg in self.info["subgraphs"]]}
 
@@ -62,7 +63,17 @@ def gen_case(rng, i, multi_every=6, share_every=4, shipped_every=3, n_samples=1,
         name, rec = rng.choice(pl.shipped_recipes())
         return Case(mb, info, recipe=rec, data=data, desc=name)
     cmds = pl.gen_recipe(rng, mb)
-    return Case(mb, info, cmds=cmds, data=data, desc=[(c["regex"], c["operation"], c["alg"]) for c in cmds])
+    late = None
+    r = rng.random()
+    if r < 0.07:
+        # the object quantizes once with the calibration result, then an operator is switched off and it quantizes again
+        ops = sorted({o for sg in info["subgraphs"] for o in sg["ops"] if o in gm.Grower.SUPPORTED})
+        if ops:
+            late = [{"k": "quantize"}, {"k": "add", "regex": ".*", "operation": rng.choice(ops), "cfg": None, "alg": "no_quantize"}]
+    elif r < 0.11:
+        late = [{"k": "policy", "file": "example_config_policy.json"}]   # a shipped custom policy replaces the default one
+    return Case(mb, info, cmds=cmds, data=data, late=late,
+                desc=[(c["regex"], c["operation"], c["alg"]) for c in cmds] + ([("late", c.get("k"), c.get("operation") or c.get("file")) for c in late] if late else []))
 
 
 def make_quantizer(case):
@@ -87,10 +98,25 @@ def run_case(ctx, drv, case, graph_corr=True):
     except Exception as e:  # noqa: BLE001
         return {"status": "raise", "exc": type(e).__name__, "stage": "calibrate", "q": q}
     res["cr"] = cr
+    for c in (case.late or []):
+        if c.get("k") == "quantize":
+            try:
+                q.quantize(cr)   # the caller's object itself, as a user would pass it
+            except Exception:  # noqa: BLE001
+                pass
+        elif c.get("k") == "policy":
+            import os as _os
+            from ai_edge_quantizer import quantizer as _qm
+            q.load_config_policy(_os.path.join(_os.path.dirname(_qm.__file__), "policies", c["file"]))
+            orc.reset_fresh()
+            orc.ACTIVE_POLICY[0] = c["file"]
+            res["policy"] = c["file"]
+        else:
+            pl.apply_recipe(q, [c])
     try:
         params = q._get_quantization_params(copy.deepcopy(cr))
     except Exception as e:  # noqa: BLE001
-        return {"status": "raise", "exc": type(e).__name__, "stage": "params", "q": q, "cr": cr, "msg": str(e)[:200]}
+        return {"status": "raise", "exc": type(e).__name__, "stage": "params", "q": q, "cr": cr, "msg": str(e)[:200], "policy": res.get("policy")}
     res["params"] = params
     if graph_corr:
         real_m, insts = fg.stage_case(ctx, drv, case.mb, params)
@@ -100,13 +126,25 @@ def run_case(ctx, drv, case, graph_corr=True):
         res["status"] = "ok"
         res["out"] = bytes(out.quantized_model)
     except Exception as e:  # noqa: BLE001
-        return {"status": "raise", "exc": type(e).__name__, "stage": "quantize", "q": q, "cr": cr}
+        return {"status": "raise", "exc": type(e).__name__, "stage": "quantize", "q": q, "cr": cr, "policy": res.get("policy")}
     return res
+
+
+def restore_policy(res):
+    """load_config_policy replaces PROCESS-GLOBAL state: put the default policy back once the case's oracles have run"""
+    if res.get("policy"):
+        from ai_edge_quantizer import algorithm_manager, default_policy
+        algorithm_manager.register_config_check_policy_func(algorithm_manager.AlgorithmName.MIN_MAX_UNIFORM_QUANT,
+                                                            default_policy.DEFAULT_CONFIG_CHECK_POLICY)
+        orc.ACTIVE_POLICY[0] = None
+        orc.reset_fresh()
 
 
 def count_tags(ctx, case, res):
     for t in case.info["tags"]:
         ctx.tag(t)
+    if case.late:
+        ctx.tag("late:" + "+".join(str(c.get("k")) for c in case.late))
     ctx.tag("status_" + res["status"])
     if res["status"] == "raise":
         k = res["exc"] + "@" + res["stage"]
@@ -213,7 +251,8 @@ def explore(ctx, drv, n, per_case, gen=gen_case, graph_corr=True, reserve_s=25, 
         res = run_case(ctx, drv, case, graph_corr=graph_corr)
         count_tags(ctx, case, res)
         ctx.case({"ops": [sg["ops"] for sg in case.info["subgraphs"]], "recipe": case.desc}, res["status"] != "empty")
-        if (mat_corr or pipe_corr) and res.get("q") is not None and res["status"] != "empty" and res.get("stage") not in ("recipe", "calibrate"):
+        if (mat_corr or pipe_corr) and res.get("q") is not None and res["status"] != "empty" and res.get("stage") not in ("recipe", "calibrate") \
+                and not res.get("policy"):   # the model's policy tables are the default policy's
             if mat_corr:
                 fmat.cmp_materialize(ctx, drv, case.mb, res["q"], res.get("cr"))
             if pipe_corr:
@@ -228,11 +267,14 @@ def explore(ctx, drv, n, per_case, gen=gen_case, graph_corr=True, reserve_s=25, 
         try:
             per_case(case, res)
         except common.Timeout:
+            restore_policy(res)
             raise
         except Exception as e:  # noqa: BLE001  an oracle that cannot even interpret the library's output
             import traceback
             ctx.fail(f"the property oracle could not interpret the library's output ({type(e).__name__}: {str(e)[:120]})",
                      {**case.replay(), "traceback": traceback.format_exc()[-1200:]}, "oracle-crash:" + type(e).__name__)
+        finally:
+            restore_policy(res)
 
 
 def failer(ctx, case, prefix=""):
